@@ -190,6 +190,8 @@ def _check(case):
     require(not is_raised(pp), "get_partial_pressures raised %r", pp)
     ps = (float(mix.first_component.get_vapor_pressure(t)), float(mix.second_component.get_vapor_pressure(t)))
     for i, xi in ((0, x), (1, 1 - x)):
+        if abs(xi * g0[i] * ps[i]) < 1e-290:
+            continue  # subnormal product: relative accuracy is lost in the representation itself (thorough seed 6: 1.9e-314)
         require(relerr(pp[i], xi * g0[i] * ps[i]) <= 1e-13, "partial pressure %d = %r but x*gamma*Psat = %r",
                 i + 1, float(pp[i]), xi * g0[i] * ps[i])
     # (e) mole- vs mass-fraction input
